@@ -38,14 +38,25 @@ def run(rep):
         "reward eps when eps <= 2 min(ub, -lb)), and that the flipped row -forward - reverse - z >= 0 pins forward = reverse = z = 0. "
         "_flip_coefficients (listed reactions pairwise different, rows / auxiliaries exist): in the row of every listed reaction every "
         "coefficient except the auxiliary's is negated, every other row is untouched (loop invariant), then EVERY objective coefficient is "
-        "negated and the direction is not touched; glue lemma over that post-condition: applying it twice is the identity."),
+        "negated and the direction is not touched; glue lemma over that post-condition: applying it twice is the identity. "
+        "fastcc, the skeleton (helpers applied by these contracts at their call sites): works on the ARGUMENT model and only inside "
+        "contexts - every helper call and the one model.optimize(min) (the builtin min is not a documented sense: direction stays max) "
+        "are made with exactly one own context open, the stack is as at entry between iterations, at model.copy(), on return and when "
+        "a solve raises; loop invariant: the kept list is one list that only grows, holds reactions of the model, each answered by some "
+        "_find_sparse_mode call (ghost set), the list handed to _flip_coefficients has pairwise different ids; the last-iteration branch "
+        "appends exactly the reactions labelled by fluxes.index[|fluxes| > cutoff] of the post-flip solution; final construction: "
+        "model.copy() once after the loop, remove_reactions(ids, remove_orphans=True) on THE COPY with ids = exactly the ids of the "
+        "model's reactions outside A = set(kept), the copy is returned, the argument's reaction list / bounds are as at entry. NOT "
+        "proved: that A is the non-blocked set (FASTCC theorem; fails for reversible reactions: open finding), loop termination."),
         trusted=["GLPK (assumed, monitored)", "pandas elementwise semantics (uninterpreted operations)",
                  "model.exchanges / find_boundary_types returns a list of reactions (assumed; the heuristic itself is not verified)",
                  "flux_variability_analysis, get_solution, the objective setter as abstract calls (C05 / C04 / C03 cover them)", "FASTCC algorithm (Vlassis et al.)",
                  "optlang Constraint / Objective get_linear_coefficients / set_linear_coefficients read / write exactly the given coefficients; "
                  "`.variables` holds every variable with a non-zero coefficient; constraints.get / variables.get find the named object; a "
                  "fresh Objective has direction max (assumed)",
-                 "Reaction.flux = primal(forward) - primal(reverse) behind check_solver_status (getter modelled in the hooks, not re-verified)"])
+                 "Reaction.flux = primal(forward) - primal(reverse) behind check_solver_status (getter modelled in the hooks, not re-verified)",
+                 "fastcc: Model.copy / remove_reactions as recorded calls (C12 / C02); the labels of solution.fluxes are ids of reactions "
+                 "of the model (get_solution, C04); rows named after reactions with different ids are different objects (assumed)"])
 
 
 def replay(payload):
